@@ -250,6 +250,9 @@ func genScenario(rng *rand.Rand) (scenCfg, []envEvent, []inst.Window, time.Durat
 			}
 		default:
 			e.kind = "reload"
+			if rng.Intn(2) == 0 {
+				e.a = alertNames[rng.Intn(len(alertNames))] // resolved right after the reload
+			}
 		}
 		evs = append(evs, e)
 	}
@@ -351,7 +354,14 @@ func TestScenarios(t *testing.T) {
 		synctest.Test(t, func(t *testing.T) {
 			lg := &inst.Log{}
 			var killed atomic.Bool
+			var reloading atomic.Bool
 			hook := func(name string, args ...any) {
+				if name == "group.loaded" && reloading.Load() {
+					// the new dispatcher is routing the provider's alerts it found at start-up:
+					// make that take a while, so that an update submitted right after the reload
+					// would overtake it if loading did not complete first
+					time.Sleep(700 * time.Millisecond)
+				}
 				switch name {
 				case "flush.begin":
 					if killed.Load() {
@@ -439,10 +449,23 @@ func TestScenarios(t *testing.T) {
 						}
 					}
 					lg.Add(inst.Event{Ev: "reloading", Data: map[string]any{"integs": cur}})
+					reloading.Store(true)
 					if err := in.Reload(cfg.yaml(cur)); err != nil {
 						t.Fatalf("reload: %v", err)
 					}
+					reloading.Store(false)
 					lg.Add(inst.Event{Ev: "reload"})
+					// what the API reports the moment the reload has returned (inhibitor and dispatcher
+					// have loaded the existing alerts by then)
+					apiViews(in, lg)
+					if e.a != "" {
+						// ... and an update submitted at once
+						time.Sleep(time.Millisecond)
+						now := time.Now()
+						pa := inst.PostAlert{Labels: alertLabels[e.a], EndsAt: &now}
+						code := in.PostAlerts([]inst.PostAlert{pa})
+						lg.Add(inst.Event{Ev: "post", Data: map[string]any{"a": e.a, "mode": "resolve", "d": 0, "code": code}})
+					}
 				}
 				synctest.Wait()
 				snapshotGroups(in, lg)
